@@ -168,6 +168,7 @@ pub fn parse_statement(
         let (gather_label, gather_content) = if gather_content.starts_with('(') {
             if let Some(end) = gather_content.find(')') {
                 let label = gather_content[1..end].trim().to_owned();
+                choice::check_label_name(&label).map_err(|e| e.with_line(ln))?;
                 let rest = gather_content[end + 1..].trim_start();
                 (Some(label), rest)
             } else {
